@@ -9,7 +9,7 @@ AREA = "Retriever"
 def classify(events, pos):
     ev = events[pos]
     if ev["e"] == "dumped":
-        return "dump/%s" % ("failed" if not ev["ok"] else "manifest-does-not-describe-files")
+        return "dump/%s" % ("failed" if not ev["ok"] else "manifest-or-metrics-do-not-describe-files")
     if ev["e"] == "loaded":
         if not ev["ok"]:
             return "load/failed-on-own-dump"
